@@ -13,7 +13,7 @@ MODELS       target c, target py (all support files are templates -> _generate_h
              (the only way to reach SupportGenerator._copy_header, incl. its shutil.copy branch: cpp has no default line
              post-processors; this model uses only the 36 `--generate-support only` events, see MODELS).
              Over a two-type namespace ns.A.1.0, ns.sub.B.1.0.
-INITIAL      empty `out/`; one foreign 0o640 file; a 0o444 leftover with foreign content at a type-file path; the same at
+INITIAL      empty `out/`; a ZERO-LENGTH writable file at a type-file / support-file path; one foreign 0o640 file; a 0o444 leftover with foreign content at a type-file path; the same at
              a support-file path.
 FAMILIES     (family D = modes {0o000, 0o200, 0o644}: no bits at all / write-only results, no explicit post-processor)
              the events above are family A; family B = all five modes {0o444,0o644,0o600,0o464,0o446} (the last two:
@@ -85,7 +85,8 @@ MODELS: typing.Dict[str, typing.Dict[str, typing.Any]] = {
     # alphabet is restricted to the 36 support-only events (the leftover at a type path is then one more bystander).
     "cpp+plain": {"lang": "cpp", "plain": True, "gs": ("only",)},
 }
-INITS = ("empty", "foreign", "ro_leftover_type", "ro_leftover_support")
+# zero_*: a ZERO-LENGTH writable file at a path the generator writes (a placeholder, the debris of an aborted run)
+INITS = ("empty", "foreign", "ro_leftover_type", "ro_leftover_support", "zero_leftover_type", "zero_leftover_support")
 
 DSDL = {
     "ns/A.1.0.dsdl": "uint8 a\n@sealed\n",
@@ -316,6 +317,10 @@ def build_init(model: str, init: str, root: pathlib.Path) -> None:
         rel, data, mode = model_info(model)["leftover_type"], LEFTOVER_TEXT, 0o444
     elif init == "ro_leftover_support":
         rel, data, mode = model_info(model)["leftover_support"], LEFTOVER_TEXT, 0o444
+    elif init == "zero_leftover_type":
+        rel, data, mode = model_info(model)["leftover_type"], b"", 0o640
+    elif init == "zero_leftover_support":
+        rel, data, mode = model_info(model)["leftover_support"], b"", 0o640
     else:
         raise HarnessError(f"unknown initial state {init}")
     p = root / rel
